@@ -197,6 +197,13 @@ class Unit:
                                                          "the values below are an assignment of the columns / inputs that satisfies every hypothesis and falsifies the clause",
                                            instance=label, values=r.get("model"))
                         out.append(r)
+            # every concrete instance passes: a symbolic clause that failed WITHOUT a natively confirmed input is then not reported as a violation (the contract may
+            # simply no longer fit a restructured body - loop ordinals, helper locals); it stays open (UNDECIDED) and the bounded layer has the last word
+            if inst_res["checked"] > 0 and inst_res["failed"] == 0 and not inst_res["errors"]:
+                for r in open_prop:
+                    if r["status"] == "failed" and not (r.get("replay") or {}).get("ok"):
+                        r["replay"] = dict(ok=False, kind="concrete instances", instances=len(inst_res["labels"]), ground_clauses_checked=inst_res["checked"],
+                                           note="the same function body run natively on every concrete instance of this contract satisfies all ground clauses")
             res["concrete_instances"] = inst_res
         res["obligations"] = out
         res["wall_s"] = round(time.time() - t0, 3)
